@@ -34,10 +34,10 @@ PROPS = {
             "condition is absent or true, appends once per row, evaluates every target on that row (R-ROWLOOP, 4 "
             "gate cases executed abstractly); FROM expression AND-ed with WHERE (R-FROMAND, 4 cases). Does not "
             "decide the numeric value of an operator application, regular-expression results or overload "
-            "resolution for nested expressions. The constant a cell computes with is the parameter written at that place: positional placeholders bind in textual order whatever the order clauses are compiled in (R-PLACEHOLDER). R-DIVGUARD and the operator terms of R-OPSEM are decided by interpreting each implementation on terms with a zero and a non-zero divisor: no division by the second operand is evaluated before the zero test, the zero case returns NULL, the other case returns the operation of the operator's name. AND / OR / COALESCE are interpreted on terms for every operand list of length 1-3 over NULL, FALSE, TRUE, zero/empty and other values: the value is that of the truth table (NULL, FALSE or TRUE for AND / OR), operands are evaluated once, left to right, and evaluation stops where the statement says it stops (R-3VL). No evaluator writes state that outlives the row (write census, R-SHARED): a cell is computed from its row alone. R-NULLSTRICT is decided on terms: every NULL / non-NULL operand assignment of every NULL-propagating evaluator class (and every outcome of the comparisons between non-NULL values); a NULL reaches neither the operation nor an ordering comparison nor arithmetic. The function-call evaluator recognises NULL operands by identity (R-EVALALL). AND, OR, literals, `*` and column names compile to the node of that meaning over all their arguments in source order (R-NODEBUILD, handlers interpreted on terms). The scalar functions a cell is computed with are the recorded definitions (R-DEFN, see C18). The source tables hand the scan one row per directive resp. posting, and the null table `#` exactly one NULL row (R-ROWGEN). The operator handlers return the overload of the operator written, applied to the compiled operands in order, whatever the syntax of the operands (R-OPNODE): no operator is rewritten into another one (NOT (a < b) is not a >= b: NOT NULL is TRUE). No evaluator writes to its node while evaluating a row (R-ROWPURE, from the write census; the cache of an uncorrelated subquery is the one confirmed exception). Subscripts and attribute accesses on a non-NULL container give the entry for the key (NULL when missing, the default of getitem(x, k, d)) resp. the field getter applied to the value (R-ACCESSEVAL)."),
+            "resolution for nested expressions. The constant a cell computes with is the parameter written at that place: positional placeholders bind in textual order whatever the order clauses are compiled in (R-PLACEHOLDER). R-DIVGUARD and the operator terms of R-OPSEM are decided by interpreting each implementation on terms with a zero and a non-zero divisor: no division by the second operand is evaluated before the zero test, the zero case returns NULL, the other case returns the operation of the operator's name. AND / OR / COALESCE are interpreted on terms for every operand list of length 1-3 over NULL, FALSE, TRUE, zero/empty and other values: the value is that of the truth table (NULL, FALSE or TRUE for AND / OR), operands are evaluated once, left to right, and evaluation stops where the statement says it stops (R-3VL). No evaluator writes state that outlives the row (write census, R-SHARED): a cell is computed from its row alone. R-NULLSTRICT is decided on terms: every NULL / non-NULL operand assignment of every NULL-propagating evaluator class (and every outcome of the comparisons between non-NULL values); a NULL reaches neither the operation nor an ordering comparison nor arithmetic. The function-call evaluator recognises NULL operands by identity (R-EVALALL). AND, OR, literals, `*` and column names compile to the node of that meaning over all their arguments in source order (R-NODEBUILD, handlers interpreted on terms). The scalar functions a cell is computed with are the recorded definitions (R-DEFN, see C18). The source tables hand the scan one row per directive resp. posting, and the null table `#` exactly one NULL row (R-ROWGEN). The operator handlers return the overload of the operator written, applied to the compiled operands in order, whatever the syntax of the operands (R-OPNODE): no operator is rewritten into another one (NOT (a < b) is not a >= b: NOT NULL is TRUE). No evaluator writes to its node while evaluating a row (R-ROWPURE, from the write census; the cache of an uncorrelated subquery is the one confirmed exception). Subscripts and attribute accesses on a non-NULL container give the entry for the key (NULL when missing, the default of getitem(x, k, d)) resp. the field getter applied to the value (R-ACCESSEVAL). IN / NOT IN are compiled as membership over the operands as written, whatever the length of the list (R-INOP): a one-element list is not an equality."),
         'assumptions': TRUSTED_STRUCT + TRUSTED_ABSINT[3:],
         'quick': [sxev.rule_nullstrict, evalnodes.rule_divguard, evalnodes.rule_promote, evalnodes.rule_opsem,
-                  sxev.rule_3vl, sx.rule_rowloop, sxk.rule_fromand, sxk.rule_implicitcast, gr.rule_precmatrix, sxst.rule_placeholder, st.rule_shared, sxev.rule_evalall, sxk.rule_nodebuild, sxl.rule_defn, sxt.rule_rowgen, sxg.rule_opnode, st.rule_rowpure, sxev.rule_accesseval],
+                  sxev.rule_3vl, sx.rule_rowloop, sxk.rule_fromand, sxk.rule_implicitcast, gr.rule_precmatrix, sxst.rule_placeholder, st.rule_shared, sxev.rule_evalall, sxk.rule_nodebuild, sxl.rule_defn, sxt.rule_rowgen, sxg.rule_opnode, st.rule_rowpure, sxev.rule_accesseval, sxk.rule_inop],
         'thorough': [],
     },
     'C02': {
@@ -51,9 +51,9 @@ PROPS = {
             "faithfulness of the structural node equality used to merge GROUP BY expressions with targets, for all "
             "evaluator classes and all column instances that can meet in one table (R-EQFAITH); grouping references "
             "validated against the domain they are resolved in (R-IDXBOUND) and hidden grouping targets nameless and "
-            "appended (R-HIDDEN). Does not decide numeric values of folds nor hashing/equality of key values. Every aggregate node of a target expression is found, once per occurrence and left to right, by get_columns_and_aggregates (R-AGGCOLLECT): a node left out is never allocated, updated or finalized. R-AGGCLASS decides, on terms, the final state of the slot and the mutations of the accumulator object for every value x slot x order x state-query case of every aggregate class, and initialize / finalize / __call__. EvalNode.__eq__ itself holds iff same class and all __slots__ attributes equal (16 cases on terms). Every operand a node is built with is among what childnodes() yields, for each of the 12 evaluator classes (R-CHILDNODES): an operand kept in a tuple or outside __slots__ hides the aggregates below it. The slot allocator on terms: n allocate() calls return n different indexes, all valid in every store create_store() makes afterwards, and every store is a new list of NULLs (R-ALLOCATOR). An aggregate query that returns after the scan without walking the groups, on a condition that is not about the group container being empty, is a violation (R-AGGPROTO early-return). LIMIT, DISTINCT and ORDER BY act on the groups: with any of them the aggregates are still fed from every selected row of the source table itself (R-AGGPROTO scan), and a grouped query without any aggregate still assigns every selected row to the group of its full key, visible or not (R-AGGPROTO grouping). Evaluators other than the aggregates keep nothing on the node between rows or groups (R-ROWPURE): HAVING and the targets of every group are evaluated afresh. BALANCES is a grouped aggregate SELECT: its WHERE clause, FROM clause and summary function reach the expansion (R-FIELDFLOW), so the rows that are folded are the selected ones. A group whose slot ends NULL makes the node NULL - the node object serves all groups (R-AGGCLASS finalize-null)."),
+            "appended (R-HIDDEN). Does not decide numeric values of folds nor hashing/equality of key values. Every aggregate node of a target expression is found, once per occurrence and left to right, by get_columns_and_aggregates (R-AGGCOLLECT): a node left out is never allocated, updated or finalized. R-AGGCLASS decides, on terms, the final state of the slot and the mutations of the accumulator object for every value x slot x order x state-query case of every aggregate class, and initialize / finalize / __call__. EvalNode.__eq__ itself holds iff same class and all __slots__ attributes equal (16 cases on terms). Every operand a node is built with is among what childnodes() yields, for each of the 12 evaluator classes (R-CHILDNODES): an operand kept in a tuple or outside __slots__ hides the aggregates below it. The slot allocator on terms: n allocate() calls return n different indexes, all valid in every store create_store() makes afterwards, and every store is a new list of NULLs (R-ALLOCATOR). An aggregate query that returns after the scan without walking the groups, on a condition that is not about the group container being empty, is a violation (R-AGGPROTO early-return). LIMIT, DISTINCT and ORDER BY act on the groups: with any of them the aggregates are still fed from every selected row of the source table itself (R-AGGPROTO scan), and a grouped query without any aggregate still assigns every selected row to the group of its full key, visible or not (R-AGGPROTO grouping). Evaluators other than the aggregates keep nothing on the node between rows or groups (R-ROWPURE): HAVING and the targets of every group are evaluated afresh. BALANCES is a grouped aggregate SELECT: its WHERE clause, FROM clause and summary function reach the expansion (R-FIELDFLOW), so the rows that are folded are the selected ones. A group whose slot ends NULL makes the node NULL - the node object serves all groups (R-AGGCLASS finalize-null). GROUP BY with two keys (name, position, new expression in both orders, two new expressions) resolves each key on its own, a name to the output of that name whatever columns the table has (R-HIDDEN multi-key); every SELECT target has an evaluator node of its own (R-TARGETNODE). An operator handler builds one node of the operator written over the operands it compiled, each handed to one parent (R-OPNODE): an aggregate below an operand handed to two parents would be collected and updated twice."),
         'assumptions': TRUSTED_STRUCT,
-        'quick': [sxs.rule_aggproto, sxag.rule_aggclass, eqfaith.rule_eqfaith, sxk.rule_idxbound, cr.rule_hidden, sxg.rule_aggcollect, sxev.rule_childnodes, sxs.rule_allocator, st.rule_rowpure, cl.rule_fieldflow],
+        'quick': [sxs.rule_aggproto, sxag.rule_aggclass, eqfaith.rule_eqfaith, sxk.rule_idxbound, cr.rule_hidden, sxg.rule_aggcollect, sxev.rule_childnodes, sxs.rule_allocator, st.rule_rowpure, cl.rule_fieldflow, cr.rule_targetnode, sxg.rule_opnode],
         'thorough': [sxs.rule_aggproto_deep, sxk.rule_idxbound_deep],
     },
     'C03': {
@@ -68,7 +68,7 @@ PROPS = {
             "execution (R-NULLKEY); faithfulness of node equality used to merge ORDER BY keys (R-EQFAITH); positional "
             "keys validated against the number of visible targets (R-IDXBOUND); hidden keys nameless (R-HIDDEN). Does "
             "not prove that the multi-pass scheme yields the lexicographic order (an algorithmic fact about stable "
-            "sorts) nor comparability of values. For a compiled SELECT execute_query returns, on every path, the pair execute_select returned (R-QUERYEXEC): ordering, de-duplication and the cut have one implementation. Executing a compiled statement leaves it as it was - the ORDER BY specification, the targets and the limit are read, never changed (R-INPUTMUT over the executor, whose `query` argument is caller-owned) - so a statement compiled once orders its result the same way every time it is executed."),
+            "sorts) nor comparability of values. For a compiled SELECT execute_query returns, on every path, the pair execute_select returned (R-QUERYEXEC): ordering, de-duplication and the cut have one implementation. Executing a compiled statement leaves it as it was - the ORDER BY specification, the targets and the limit are read, never changed (R-INPUTMUT over the executor, whose `query` argument is caller-owned) - so a statement compiled once orders its result the same way every time it is executed. ORDER BY with two new expressions gives the second the index after the first (R-HIDDEN multi-key)."),
         'assumptions': TRUSTED_STRUCT,
         'quick': [sxs.rule_pipeline, sxs.rule_sortskel, sx.rule_nullkey, eqfaith.rule_eqfaith,
                   sxk.rule_idxbound, cr.rule_hidden, sxs.rule_queryexec, st.rule_inputmut],
@@ -88,10 +88,10 @@ PROPS = {
             "type (R-COALESCE, 36 type pairs executed); untyped operands are cast to the other side's type, decimal for "
             "int (R-IMPLICITCAST); in the thorough tier every overload is also run for the subclass operands that the "
             "MRO lookup admits (R-ADMITTED). Decides type conformance of declarations vs. implementations for all overloads; "
-            "does not decide values of dtype `object` nor conformance of ledger data to beancount's annotations. Also: the overload-resolution primitives of types.py (Any equals every class and not the `*` pseudo-type, the strict linearisation, first overload along it) behave as the registry model assumes (R-LOOKUP, 13 cases on terms), and every output column of both scan branches holds the value of its own target (R-ROWLOOP, R-AGGPROTO key layout). A subquery column announces the data type of the inner target whose row position it reads, with hidden, repeated and mixed-case inner names (R-VISFILTER). AND / OR announce bool and evaluate to NULL, FALSE or TRUE whatever the operand types (R-3VL). `x.attr` builds EvalGetter(x, field column, field column datatype) (R-ACCESSNODE); R-GUARDS: a grouping key of a type that cannot be hashed is rejected however it is referenced. Constants announce type(value) exactly, or the dtype they are given (R-CONSTTYPE). A query parameter becomes EvalConstant(value) with no dtype override (R-PLACEHOLDER): what the type checker sees is the exact class of the value executed with."),
+            "does not decide values of dtype `object` nor conformance of ledger data to beancount's annotations. Also: the overload-resolution primitives of types.py (Any equals every class and not the `*` pseudo-type, the strict linearisation, first overload along it) behave as the registry model assumes (R-LOOKUP, 13 cases on terms), and every output column of both scan branches holds the value of its own target (R-ROWLOOP, R-AGGPROTO key layout). A subquery column announces the data type of the inner target whose row position it reads, with hidden, repeated and mixed-case inner names (R-VISFILTER). AND / OR announce bool and evaluate to NULL, FALSE or TRUE whatever the operand types (R-3VL). `x.attr` builds EvalGetter(x, field column, field column datatype) (R-ACCESSNODE); R-GUARDS: a grouping key of a type that cannot be hashed is rejected however it is referenced. Constants announce type(value) exactly, or the dtype they are given (R-CONSTTYPE). A query parameter becomes EvalConstant(value) with no dtype override (R-PLACEHOLDER): what the type checker sees is the exact class of the value executed with. One implementation registered under several names announces the same type for the same operand types (R-DTYPE alias agreement). NULL conforms to every declared type, so no operator or function implementation is applied to it: the evaluator classes the decorators choose propagate NULL before calling the implementation (R-NULLSTRICT, base census included: `-x` over a NULL x is NULL, not a TypeError)."),
         'assumptions': TRUSTED_ABSINT,
         'quick': [dtype.rule_dtype, dtype.rule_typesafe, dtype.rule_renderable, sxg.rule_opresolve, sxk.rule_coalesce,
-                  sxk.rule_implicitcast, sxty.rule_lookup, sxs.rule_aggproto, sx.rule_rowloop, tb.rule_tablefields, cr.rule_visfilter, sxev.rule_3vl, sxk.rule_accessnode, sxg.rule_guards, sxk.rule_consttype, sxst.rule_placeholder, sxev.rule_accesseval],
+                  sxk.rule_implicitcast, sxty.rule_lookup, sxs.rule_aggproto, sx.rule_rowloop, tb.rule_tablefields, cr.rule_visfilter, sxev.rule_3vl, sxk.rule_accessnode, sxg.rule_guards, sxk.rule_consttype, sxst.rule_placeholder, sxev.rule_accesseval, sxev.rule_nullstrict],
         'thorough': [dtype.rule_admitted],
     },
     'C05': {
@@ -112,11 +112,11 @@ PROPS = {
             "grammar rule (R-PARTIAL); compile-time constant folding protected (R-FOLDSAFE); AST classes <-> compiler "
             "handlers <-> shell handlers exhaustive (R-EXHAUSTIVE); DB-API exception tree (R-EXCTREE); structural "
             "equality faithful (R-EQFAITH). Does not decide acceptance of every well-formed statement nor validity "
-            "of parse positions produced by TatSu at run time. Also on terms: the 11 combinations of placeholder kinds and parameter kinds give the stated outcome (R-PLACEHOLDER), the 33 FROM clause combinations (R-FROMCLAUSE), IN / NOT IN operands (R-INOP), the resolution primitives (R-LOOKUP). Cursor.execute hands the compiler the connection context, the statement as given (or parsed from the text given) and the caller's parameter object itself - only None may be replaced - so the placeholder checks answer for what the caller passed (R-EXECFLOW). ast.walk visits every node once (R-WALK): the placeholder checks see every placeholder. The metadata accessors meta / entry_meta / any_meta are checked against their signature like any function before they are rewritten (R-GUARDS, 6 arity cases); IN (subquery) needs exactly one column - none is rejected like several (R-INOP)."),
+            "of parse positions produced by TatSu at run time. Also on terms: the 11 combinations of placeholder kinds and parameter kinds give the stated outcome (R-PLACEHOLDER), the 33 FROM clause combinations (R-FROMCLAUSE), IN / NOT IN operands (R-INOP), the resolution primitives (R-LOOKUP). Cursor.execute hands the compiler the connection context, the statement as given (or parsed from the text given) and the caller's parameter object itself - only None may be replaced - so the placeholder checks answer for what the caller passed (R-EXECFLOW). ast.walk visits every node once (R-WALK): the placeholder checks see every placeholder. The metadata accessors meta / entry_meta / any_meta are checked against their signature like any function before they are rewritten (R-GUARDS, 6 arity cases); IN (subquery) needs exactly one column - none is rejected like several (R-INOP). Acceptance is a function of the statement and the tables: compiling writes nothing into the statement tree it is given (R-INPUTMUT), so a parsed statement that was accepted once is not a different statement the next time. The location a ParseError carries is built from the offset of the failure in the whole text, pos = exc.pos and endpos = pos + 1 over the tokenizer of the failure (R-PARSELOC, parse() on terms with the generated parser failing)."),
         'assumptions': TRUSTED_STRUCT + TRUSTED_ABSINT[:1],
         'quick': [cr.rule_raise, sxg.rule_guards, sxg.rule_targetchk, cr.rule_guard_typesafe, sxk.rule_idxbound,
                   sxg.rule_opresolve, cr.rule_partial, cr.rule_foldsafe, cr.rule_exhaustive, cr.rule_exctree,
-                  eqfaith.rule_eqfaith, sxk.rule_coalesce, sxk.rule_implicitcast, sxst.rule_placeholder, sxk.rule_fromclause, sxk.rule_inop, sxty.rule_lookup, sxev.rule_childnodes, sxc.rule_execflow, sxst.rule_walk],
+                  eqfaith.rule_eqfaith, sxk.rule_coalesce, sxk.rule_implicitcast, sxst.rule_placeholder, sxk.rule_fromclause, sxk.rule_inop, sxty.rule_lookup, sxev.rule_childnodes, sxc.rule_execflow, sxst.rule_walk, st.rule_inputmut, st.rule_parseloc],
         'thorough': [sxk.rule_idxbound_deep],
     },
     'C06': {
@@ -150,7 +150,7 @@ PROPS = {
             "name, and subquery columns are numbered among the visible targets (R-VISFILTER); `*` expands to names "
             "that are columns of the table, for all 10 tables (R-WILDCARD); the expression text is text[pos:endpos] of "
             "the node's own parse info (R-NAMESLICE); projection to visible indexes (R-PIPELINE). Does not decide that "
-            "the slice equals the expression's text for arbitrary spacing (positions come from TatSu at run time). execute_query returns what execute_select returned (R-QUERYEXEC) and every accepting path of _compile_select returns the EvalQuery built there over this statement's own compiled targets (R-SELECTNODE): there is no second place where a description is made, and no path on which the names of another SELECT are published. The target rule of the grammar is `expression [AS identifier]`: an alias is an identifier, so no visible column can have an empty or otherwise falsy name (R-CLAUSELANG on the target and select rules). cursor.description after execute() is the description execute_query returned, whatever it is - the empty tuple of a result without columns included (R-RESET)."),
+            "the slice equals the expression's text for arbitrary spacing (positions come from TatSu at run time). execute_query returns what execute_select returned (R-QUERYEXEC) and every accepting path of _compile_select returns the EvalQuery built there over this statement's own compiled targets (R-SELECTNODE): there is no second place where a description is made, and no path on which the names of another SELECT are published. The target rule of the grammar is `expression [AS identifier]`: an alias is an identifier, so no visible column can have an empty or otherwise falsy name (R-CLAUSELANG on the target and select rules). cursor.description after execute() is the description execute_query returned, whatever it is - the empty tuple of a result without columns included (R-RESET). A target that repeats an earlier one in another spelling is named by its own source text (R-HIDDEN name-source with tree-equal targets)."),
         'assumptions': TRUSTED_STRUCT,
         'quick': [cr.rule_hidden, cr.rule_visfilter, cr.rule_wildcard, cr.rule_nameslice, sxs.rule_pipeline, sxs.rule_queryexec, sxp.rule_selectnode, gr.rule_clauselang_target, sxc.rule_reset],
         'thorough': [],
@@ -164,10 +164,10 @@ PROPS = {
             "among the visible inner targets, read row[i], carry the inner dtype and the rows come from executing "
             "that very subquery (R-VISFILTER); two different IN-subqueries do not compare equal (R-EQFAITH); the "
             "single-column guard exists (R-GUARDS) and the IN node is NULL-propagating (R-NULLSTRICT). Does not decide "
-            "equality of nested and materialised results in general. IN / NOT IN hand the compiled operands on unmodified, wrap a one-column subquery as a constant list and reject wider ones (R-INOP). Compiling the enclosing SELECT stores nothing into the compiled subquery or its table, for ordered / unordered and plain / aggregate outer queries (R-QUERYFROZEN): FROM (q) runs over the rows q produces by itself, in q's order. `SELECT * FROM (q)` presents one column per visible target of q, in order (R-SUBQNAMES; for an inner query with two targets of the same name the columns collapse: known finding D30)."),
+            "equality of nested and materialised results in general. IN / NOT IN hand the compiled operands on unmodified, wrap a one-column subquery as a constant list and reject wider ones (R-INOP). Compiling the enclosing SELECT stores nothing into the compiled subquery or its table, for ordered / unordered and plain / aggregate outer queries (R-QUERYFROZEN): FROM (q) runs over the rows q produces by itself, in q's order. `SELECT * FROM (q)` presents one column per visible target of q, in order (R-SUBQNAMES; for an inner query with two targets of the same name the columns collapse: known finding D30). `x IN (subquery)` evaluates the registered membership operators over the subquery's column: their result terms are Python membership, FALSE / TRUE for a non-member whatever else the column holds (R-OPSEM, now also here)."),
         'assumptions': TRUSTED_STRUCT,
         'quick': [sxst.rule_reentrant, cr.rule_visfilter, eqfaith.rule_eqfaith, sxg.rule_guards, sxev.rule_nullstrict,
-                  sx.rule_subq1d, sxk.rule_inop, cr.rule_wildcard, sxst.rule_queryfrozen, cr.rule_subqnames, st.rule_rowpure],
+                  sx.rule_subq1d, sxk.rule_inop, cr.rule_wildcard, sxst.rule_queryfrozen, cr.rule_subqnames, st.rule_rowpure, evalnodes.rule_opsem],
         'thorough': [],
     },
     'C09': {
@@ -180,13 +180,13 @@ PROPS = {
             "connection (R-SHARED). Constant folding only behind all-constant operands and, for functions, behind "
             "purity, with purity = neither row nor context passed and no global/clock reads (R-FOLDPURE); positional "
             "placeholders numbered in textual order and read back from where the numbering is kept (R-PLACEHOLDER). "
-            "Does not decide value equality of folded and unfolded evaluation. The census also follows: fields that hold connection objects, locals aliasing objects kept on self, results of `_compile` (which can be the table's own column objects), subscript reads of defaultdict fields of connection objects (a missing key is inserted), one-shot iterators stored on connection objects. The handlers of AND, OR, literals, `*` and column names build their node from the compiled arguments without evaluating anything (R-NODEBUILD): the only places where a constant expression is computed at compile time are the fold sites R-FOLDPURE decides, so a folded value and the per-row value cannot come from two different implementations of AND / OR. Every node of a statement is visited by ast.walk - fields, lists, nested lists, subqueries - exactly once, so every placeholder is counted and bound (R-WALK); a FROM subquery is compiled by the compiler of the enclosing statement, with its parameters and numbering (R-FROMCLAUSE); attaching a ledger leaves the caller's entries as they were (R-ATTACH). Every compilation runs on a new Compiler for the connection at hand (R-COMPILEFN). An ORDER BY / GROUP BY expression is matched to a target by the compiled expression, never by its text (`%s` is the same text whatever is bound to it): R-HIDDEN."),
+            "Does not decide value equality of folded and unfolded evaluation. The census also follows: fields that hold connection objects, locals aliasing objects kept on self, results of `_compile` (which can be the table's own column objects), subscript reads of defaultdict fields of connection objects (a missing key is inserted), one-shot iterators stored on connection objects. The handlers of AND, OR, literals, `*` and column names build their node from the compiled arguments without evaluating anything (R-NODEBUILD): the only places where a constant expression is computed at compile time are the fold sites R-FOLDPURE decides, so a folded value and the per-row value cannot come from two different implementations of AND / OR. Every node of a statement is visited by ast.walk - fields, lists, nested lists, subqueries - exactly once, so every placeholder is counted and bound (R-WALK); a FROM subquery is compiled by the compiler of the enclosing statement, with its parameters and numbering (R-FROMCLAUSE); attaching a ledger leaves the caller's entries as they were (R-ATTACH). Every compilation runs on a new Compiler for the connection at hand (R-COMPILEFN). An ORDER BY / GROUP BY expression is matched to a target by the compiled expression, never by its text (`%s` is the same text whatever is bound to it): R-HIDDEN. A compiled aggregate query asks for its slots again on every execution (R-ALLOCATOR node-handle): executing it a second time - the same compiled subquery reached twice in one statement, or a statement compiled once - does not depend on the first."),
         'assumptions': TRUSTED_STRUCT + [
             "receiver lifetimes: instances of a class are IMPORT/CONNECTION/EXECUTION objects according to where the class is "
             "instantiated; attributes named entries/options/entry/posting/postings/meta/price_map hold caller-owned ledger data; "
             "parameters named node/query/statement/... in the compiler and cursor are caller-owned",
             "TatSu, beancount and dateutil internals perform no shared writes (summarised, not analysed)"],
-        'quick': [st.rule_inputmut, st.rule_shared, st.rule_foldpure, sxst.rule_placeholder, sxk.rule_nodebuild, sxst.rule_walk, sxk.rule_fromclause, sxt.rule_attach, sxst.rule_compilefn, cr.rule_hidden, sxc.rule_execflow],
+        'quick': [st.rule_inputmut, st.rule_shared, st.rule_foldpure, sxst.rule_placeholder, sxk.rule_nodebuild, sxst.rule_walk, sxk.rule_fromclause, sxt.rule_attach, sxst.rule_compilefn, cr.rule_hidden, sxc.rule_execflow, sxs.rule_allocator],
         'thorough': [],
     },
     'C10': {
@@ -199,7 +199,7 @@ PROPS = {
             "of cursor state (R-RESET); rowcount reads only state written by __init__ and execute and is -1 on a fresh "
             "cursor (R-ROWCOUNT); description entries are 7-sequences of the DB-API fields (R-COLUMN7); module constants, "
             "required methods (R-MODCONST), every Connection.execute() returns a fresh cursor bound to the connection "
-            "(R-FRESHCURSOR) and the exception tree (R-EXCTREE). Does not decide Python's slice arithmetic. execute() hands statement and parameters to the compiler unchanged (R-EXECFLOW). A description entry iterates, unpacks and converts to a tuple as the 7 fields: the Sequence mixin derives that from __len__ and __getitem__, and an override of __iter__ / __reversed__ in Column must deliver the same 7 terms in order (R-COLUMN7 column7:iteration). A connection starts with a table registry (the null table under ''), option dictionary and error list of its own, attaches the dsn it is given with its keyword arguments, picks the source module by the scheme of that dsn, hands parse / compile on unchanged and does nothing on close() (R-CONNECTION). Two description entries are equal exactly when name and type of both agree; a (name, datatype) tuple compares by those two; anything else is NotImplemented (R-COLUMNEQ)."),
+            "(R-FRESHCURSOR) and the exception tree (R-EXCTREE). Does not decide Python's slice arithmetic. execute() hands statement and parameters to the compiler unchanged (R-EXECFLOW). A description entry iterates, unpacks and converts to a tuple as the 7 fields: the Sequence mixin derives that from __len__ and __getitem__, and an override of __iter__ / __reversed__ in Column must deliver the same 7 terms in order (R-COLUMN7 column7:iteration). A connection starts with a table registry (the null table under ''), option dictionary and error list of its own, attaches the dsn it is given with its keyword arguments, picks the source module by the scheme of that dsn, hands parse / compile on unchanged and does nothing on close() (R-CONNECTION). Two description entries are equal exactly when name and type of both agree; a (name, datatype) tuple compares by those two; anything else is NotImplemented (R-COLUMNEQ). Cursor state is replaced as a whole: execute() writes description, rows, rowcount and position only after parsing, compiling and executing have all run (or puts all of them back to the __init__ state first), so a statement that fails leaves one consistent result behind (R-RESET partial); a fetch writes the buffer and the position and no other attribute of the cursor - an explicit fetchmany(n) does not change arraysize (R-FETCHSIB state); Column keeps the name and type it is given (R-COLUMN7 init)."),
         'assumptions': TRUSTED_STRUCT,
         'quick': [sxc.rule_fetchsib, sxc.rule_reset, sxc.rule_rowcount, sxc.rule_column7, cu.rule_modconst, sxc.rule_freshcursor, cr.rule_exctree, sxc.rule_execflow, sxc.rule_connection, sxc.rule_columneq],
         'thorough': [],
@@ -213,9 +213,9 @@ PROPS = {
             "memo, and the row generators bump the row id once per yielded row (R-ONCEPERROW); no shared state "
             "(R-SHARED); the five sum aggregators skip NULL, accumulate with the mutator matching their operand type "
             "into a fresh per-group zero (R-AGGCLASS). NOT decided (outside static reach): that Inventory.reduce / "
-            "add_position / convert.* form a homomorphism - beancount's arithmetic over run-time lots and prices. The evaluator built by the function decorator evaluates every operand once, in order, on every row, also after a NULL operand (R-EVALALL): a `balance` operand is never skipped."),
+            "add_position / convert.* form a homomorphism - beancount's arithmetic over run-time lots and prices. The evaluator built by the function decorator evaluates every operand once, in order, on every row, also after a NULL operand (R-EVALALL): a `balance` operand is never skipped. Every SELECT target - also one that repeats an earlier target, as `sum(position) AS total, sum(position) AS again` - is compiled to an evaluator node of its own, decided on the paths of _compile_targets with a repeated target whose compiled expression compares equal to the first (R-TARGETNODE): an aggregate node is its target's accumulator, and a node shared by two targets would be updated twice per row. The `position` and `balance` columns read the posting's units and cost as they are - the whole cost, label included, is the lot key of the inventory sum (R-ACCESSPATH)."),
         'assumptions': TRUSTED_STRUCT,
-        'quick': [sxst.rule_onceperrow, st.rule_shared, sxag.rule_aggclass, sxl.rule_reduce, sxev.rule_evalall],
+        'quick': [sxst.rule_onceperrow, st.rule_shared, sxag.rule_aggclass, sxl.rule_reduce, sxev.rule_evalall, cr.rule_targetnode, tb.rule_accesspath],
         'thorough': [],
     },
     'C17': {
@@ -254,7 +254,7 @@ PROPS = {
             "consistently to all siblings is rejected as well (R-TRUNCLAW, 14 unit cases); (6) date(<string>) converts through "
             "strptime('%Y-%m-%d') and nothing else, date(y, m, d) is datetime.date(y, m, d), and possign / account_sortkey "
             "classify accounts with the account types of this very ledger (R-CASTDEF). NOT decided (equalities over run-time values, outside static reach): the "
-            "inverse pairs (date_add / date_diff), ISO week numbers, regex results, decimal arithmetic. findfirst, grep and grepn are compared with reference implementations through the outside functions they apply and to what (re.match on each value in sorted order; re.search(pattern, string) and the group taken). R-DEFN also holds a definition per implementation for the functions several overloads share a name for or that branch - quarter, weekday, today, units / cost / value / convert of amounts, positions and inventories (the beancount.core.convert function each applies, with the price map of the connection), getprice, filter_currency, possign, parse_date - compared path by path (the same value under the same conditions, however the conditions are spelled); safediv is decided with a zero and a non-zero divisor (the decimal zero without any division, else x / y); interval() is decided for every unit word its pattern admits (relativedelta of that calendar unit with the integer written), the pattern itself on membership vectors (`[+-]digits blank(s) unit[s]` over the whole argument), NULL otherwise. Date and interval arithmetic is the operator overloads: every overload of + and - (date +/- int, date - date, date +/- interval, interval +/- interval) computes the Python operation of its name on its operands in order (R-OPSEM)."),
+            "inverse pairs (date_add / date_diff), ISO week numbers, regex results, decimal arithmetic. findfirst, grep and grepn are compared with reference implementations through the outside functions they apply and to what (re.match on each value in sorted order; re.search(pattern, string) and the group taken). R-DEFN also holds a definition per implementation for the functions several overloads share a name for or that branch - quarter, weekday, today, units / cost / value / convert of amounts, positions and inventories (the beancount.core.convert function each applies, with the price map of the connection), getprice, filter_currency, possign, parse_date - compared path by path (the same value under the same conditions, however the conditions are spelled); safediv is decided with a zero and a non-zero divisor (the decimal zero without any division, else x / y); interval() is decided for every unit word its pattern admits (relativedelta of that calendar unit with the integer written), the pattern itself on membership vectors (`[+-]digits blank(s) unit[s]` over the whole argument), NULL otherwise. Date and interval arithmetic is the operator overloads: every overload of + and - (date +/- int, date - date, date +/- interval, interval +/- interval) computes the Python operation of its name on its operands in order (R-OPSEM). Every implementation registered for the int and decimal casts returns the Python conversion of its argument or NULL, whichever operand type it is registered for (R-CASTDEF int / decimal)."),
         'assumptions': TRUSTED_ABSINT[:1],
         'quick': [lib.rule_casttotal, sxl.rule_defn, sxdb.rule_binfloor, sxdb.rule_trunclaw, sxl.rule_castdef, evalnodes.rule_opsem],
         'thorough': [],
@@ -325,9 +325,9 @@ PROPS = {
             "(R-EXHAUSTIVE); PRINT collects row.entry for exactly the rows whose filter is absent or true, in order, and "
             "hands the list unmodified to the printer (R-PRINTFILTER, 4 gate cases). The SELECT templates themselves are "
             "string constants and deliberately not matched (a frozen fragment). NOT decided: that printed entries load "
-            "back equal (beancount's printer and parser). The running balance and every other piece of state the expansions touch is private to one execution (R-SHARED), and the FROM qualifiers of all three statements are applied in the fixed order (R-CALLORDER). has_account(), the one function that looks at the directive itself, takes the accounts from getters.get_entry_accounts(context.entry), never branches on the directive type and answers TRUE or FALSE on every path (R-ENTRYFILTER): PRINT evaluates its filter on directives of every type. account_sortkey() classifies with the account types of this ledger (R-ACCTTYPES); execute_print does not hand the ledger's rounding display context to the printer (R-PRINTFILTER print:precision) - a necessary condition of losslessness, the round trip itself is not decided. What the three statements read from the ledger is decided too: every column of the entries and postings tables (the operands of a PRINT filter, of WHERE and of the JOURNAL / BALANCES templates) reads the recorded attribute path of the directive (R-ACCESSPATH), and the summary functions units / cost / value of a position or inventory are the recorded reductions of beancount's convert module (R-REDUCE). In the shell PRINT hands the compiled statement and the output file to execute_print unchanged (R-PRINTOUT). The FROM / WHERE conditions of the three statements are evaluated with the operators' own semantics - BETWEEN with both bounds inclusive, comparisons as written (R-OPSEM). Through run_query() the statement executed is query.format(*args) whatever args is, so the text the three statements are given means the same with and without formatting arguments (R-RUNQUERY format)."),
+            "back equal (beancount's printer and parser). The running balance and every other piece of state the expansions touch is private to one execution (R-SHARED), and the FROM qualifiers of all three statements are applied in the fixed order (R-CALLORDER). has_account(), the one function that looks at the directive itself, takes the accounts from getters.get_entry_accounts(context.entry), never branches on the directive type and answers TRUE or FALSE on every path (R-ENTRYFILTER): PRINT evaluates its filter on directives of every type. account_sortkey() classifies with the account types of this ledger (R-ACCTTYPES); execute_print does not hand the ledger's rounding display context to the printer (R-PRINTFILTER print:precision) - a necessary condition of losslessness, the round trip itself is not decided. What the three statements read from the ledger is decided too: every column of the entries and postings tables (the operands of a PRINT filter, of WHERE and of the JOURNAL / BALANCES templates) reads the recorded attribute path of the directive (R-ACCESSPATH), and the summary functions units / cost / value of a position or inventory are the recorded reductions of beancount's convert module (R-REDUCE). In the shell PRINT hands the compiled statement and the output file to execute_print unchanged (R-PRINTOUT). The FROM / WHERE conditions of the three statements are evaluated with the operators' own semantics - BETWEEN with both bounds inclusive, comparisons as written (R-OPSEM). Through run_query() the statement executed is query.format(*args) whatever args is, so the text the three statements are given means the same with and without formatting arguments (R-RUNQUERY format). The expansion of BALANCES / JOURNAL shares the FROM node of the statement, and PRINT compiles it directly: compiling writes nothing into the statement tree (R-INPUTMUT), so the statement and its expansion written as text stay the same statement on every later execution. The FROM condition of BALANCES / JOURNAL is evaluated on every posting row, together with the WHERE condition (R-FROMAND), by nodes that keep nothing from the previous row (R-ROWPURE). "),
         'assumptions': TRUSTED_STRUCT,
-        'quick': [cl.rule_fieldflow, cr.rule_exhaustive, sx.rule_printfilter, st.rule_shared, cl.rule_callorder, sx.rule_entryfilter, sxl.rule_accttypes, sxst.rule_onceperrow, tb.rule_accesspath, sxl.rule_reduce, sxsh.rule_printout, evalnodes.rule_opsem, sxn.rule_runquery],
+        'quick': [cl.rule_fieldflow, cr.rule_exhaustive, sx.rule_printfilter, st.rule_shared, cl.rule_callorder, sx.rule_entryfilter, sxl.rule_accttypes, sxst.rule_onceperrow, tb.rule_accesspath, sxl.rule_reduce, sxsh.rule_printout, evalnodes.rule_opsem, sxn.rule_runquery, st.rule_inputmut, sxk.rule_fromand, st.rule_rowpure],
         'thorough': [],
     },
     'C15': {
@@ -339,9 +339,9 @@ PROPS = {
             "(R-GUARDS). Reshaping half, structurally: remaining columns = all but the two pivots, keys sorted, naming "
             "switch on the number of remaining columns, datatypes repeated per key, rows sorted and grouped by the first "
             "column, block placement keys.index(k) * nother + 1, NULL fill (R-PIVOTSHAPE: the recognised skeleton; a "
-            "rewrite ends in ANALYSIS-ERROR, not a verdict). NOT decided: the index arithmetic for all key sets. The pivotby grammar rule derives exactly two references separated by a comma, each a name or a position independently (R-CLAUSELANG); _compile_select hands EvalPivot the compiled query and exactly the two positions _compile_pivot_by resolved, first then second (R-PIVOTFLOW). The blocks are named by the text of the key values and typed by the announced dtypes: every value a function, operator or column delivers is of the dtype it announces - a bool under int is not (R-DTYPE), since `True/total` is not the name of a block of an integer key. NULL keys cannot be pivoted on (they do not sort), so nullable keys go through COALESCE: it returns its first non-NULL argument, zero / empty / FALSE included (R-3VL), so that no key value is merged into the fallback. The query that is pivoted is compiled with the same arguments as the statement without PIVOT BY - ORDER BY specification, LIMIT and DISTINCT included (R-PIVOTFLOW query) - and is executed by execute_select, which applies ORDER BY, DISTINCT and LIMIT itself (R-PIPELINE, R-QUERYEXEC): the rows reshaped are the rows of the un-pivoted result."),
+            "rewrite ends in ANALYSIS-ERROR, not a verdict). NOT decided: the index arithmetic for all key sets. The pivotby grammar rule derives exactly two references separated by a comma, each a name or a position independently (R-CLAUSELANG); _compile_select hands EvalPivot the compiled query and exactly the two positions _compile_pivot_by resolved, first then second (R-PIVOTFLOW). The blocks are named by the text of the key values and typed by the announced dtypes: every value a function, operator or column delivers is of the dtype it announces - a bool under int is not (R-DTYPE), since `True/total` is not the name of a block of an integer key. NULL keys cannot be pivoted on (they do not sort), so nullable keys go through COALESCE: it returns its first non-NULL argument, zero / empty / FALSE included (R-3VL), so that no key value is merged into the fallback. The query that is pivoted is compiled with the same arguments as the statement without PIVOT BY - ORDER BY specification, LIMIT and DISTINCT included (R-PIVOTFLOW query) - and is executed by execute_select, which applies ORDER BY, DISTINCT and LIMIT itself (R-PIPELINE, R-QUERYEXEC): the rows reshaped are the rows of the un-pivoted result. The pivoted column names are data handed to the description class: Column keeps the name and the type it is constructed with, as given (R-COLUMN7), so keys that differ in blanks or case stay different columns."),
         'assumptions': TRUSTED_STRUCT,
-        'quick': [sxk.rule_idxbound, cr.rule_guard_typesafe, sxg.rule_guards, sxp.rule_pivotshape, gr.rule_clauselang_pivot, sxp.rule_pivotflow, dtype.rule_dtype, sxev.rule_3vl, sxs.rule_pipeline, sxs.rule_queryexec],
+        'quick': [sxk.rule_idxbound, cr.rule_guard_typesafe, sxg.rule_guards, sxp.rule_pivotshape, gr.rule_clauselang_pivot, sxp.rule_pivotflow, dtype.rule_dtype, sxev.rule_3vl, sxs.rule_pipeline, sxs.rule_queryexec, sxc.rule_column7],
         'thorough': [sxp.rule_pivotshape_deep, sxk.rule_idxbound_deep],
     },
     'C19': {
@@ -355,7 +355,7 @@ PROPS = {
             "dot-commands never reach execute(), other lines do unless legacy, legacy names disjoint from statement "
             "keywords (R-DISPATCH); default close date for named queries (R-DEFAULTCLOSE); statement handlers exhaustive "
             "(R-EXHAUSTIVE). Does not decide byte equality of shell output with the renderer (the same function is "
-            "called), pager behaviour or history. _parse_format returns the very value whose membership in FORMATS it tested; parse() builds a new tree per call (R-PARSEFRESH): the shell writes the default CLOSE date into the tree it parsed. On terms: Settings.setstr for every setting x current value (the value goes through the setting's own parser, else its type's parser, else the type; exactly that setting is stored once with the parsed value; nothing is stored when the parser rejects), _parse_bool returns a bool on every path and reads back the spellings .set echoes, main -> BQLShell.__init__ -> do_reload carry every option (the error report is printed iff there are errors and -q was not given). BQLShell.on_Select hands the (numberified iff the setting is on) result of the connection, once, to FORMATS[settings.format] with the shell output, the ledger display context and all settings and prints nothing itself, for empty and non-empty results; on_Journal / on_Balances delegate to it; the text and csv plug-ins forward everything to render_text / render_csv, `(empty)` being the text format's rendering of an empty result (R-SELECTOUT). `.set` takes its words from shlex.split(arg) with the default rules. The dispatcher is interpreted on terms over dot prefix x command defined x legacy name. parseline on concrete command words: exactly one leading dot is the prefix (R-CMDWORD); _extract_queries rebuilds the registry of named queries from the entries just loaded, first directive of a name wins (R-QUERYREG). Settings.todict() either returns a new mapping or, if it returns the live attribute dictionary, no handler changes it (R-SELECTOUT settings-mutated). `with self.output as out` yields a file that stays open: for redirected output nullcontext(self.outfile), for the terminal a pager or the flushing wrapper, never the bare file object (R-OUTPUT, 4 cases). PRINT typed in the shell is execute_print(connection.compile(statement), the shell's output file), once, with nothing else written (R-PRINTOUT). An exception escaping a statement is reported and the command loop is entered again (R-CMDLOOP): what one statement does never decides whether the next one is read."),
+            "called), pager behaviour or history. _parse_format returns the very value whose membership in FORMATS it tested; parse() builds a new tree per call (R-PARSEFRESH): the shell writes the default CLOSE date into the tree it parsed. On terms: Settings.setstr for every setting x current value (the value goes through the setting's own parser, else its type's parser, else the type; exactly that setting is stored once with the parsed value; nothing is stored when the parser rejects), _parse_bool returns a bool on every path and reads back the spellings .set echoes, main -> BQLShell.__init__ -> do_reload carry every option (the error report is printed iff there are errors and -q was not given). BQLShell.on_Select hands the (numberified iff the setting is on) result of the connection, once, to FORMATS[settings.format] with the shell output, the ledger display context and all settings and prints nothing itself, for empty and non-empty results; on_Journal / on_Balances delegate to it; the text and csv plug-ins forward everything to render_text / render_csv, `(empty)` being the text format's rendering of an empty result (R-SELECTOUT). `.set` takes its words from shlex.split(arg) with the default rules. The dispatcher is interpreted on terms over dot prefix x command defined x legacy name. parseline on concrete command words: exactly one leading dot is the prefix (R-CMDWORD); _extract_queries rebuilds the registry of named queries from the entries just loaded, first directive of a name wins (R-QUERYREG). Settings.todict() either returns a new mapping or, if it returns the live attribute dictionary, no handler changes it (R-SELECTOUT settings-mutated). `with self.output as out` yields a file that stays open: for redirected output nullcontext(self.outfile), for the terminal a pager or the flushing wrapper, never the bare file object (R-OUTPUT, 4 cases). PRINT typed in the shell is execute_print(connection.compile(statement), the shell's output file), once, with nothing else written (R-PRINTOUT). An exception escaping a statement is reported and the command loop is entered again (R-CMDLOOP): what one statement does never decides whether the next one is read. When onecmd tests the first word against no fixed set of legacy names, no line without the dot prefix may be run as a command (R-DISPATCH bare:open)."),
         'assumptions': TRUSTED_STRUCT,
         'quick': [cl.rule_settings, sxsh.rule_optused, sxsh.rule_selectout, cl.rule_dispatch, sxsh.rule_cmdword, sxsh.rule_queryreg, sxst.rule_defaultclose, cr.rule_exhaustive, st.rule_parsefresh, sxsh.rule_output, sxsh.rule_printout, sxsh.rule_cmdloop],
         'thorough': [],
